@@ -664,6 +664,38 @@ static void space_chains(void)
 	}
 }
 
+/* level-0 extended areas: every length 1..26 x first byte (the tool the area claims to come from) x contents that satisfy or
+ * miss the recognition rules by one byte; also level 1 with the same bytes between OS type and first extended size */
+static void sweep_areas(void)
+{
+	static const uint8_t firsts[] = { 'U', 'K', '9', 'M', 0x00, 'm', 0xFF };
+	unsigned fi, len, variant, level;
+	for (level = 0; level <= 1; ++level)
+	for (fi = 0; fi < sizeof firsts; ++fi)
+	for (len = 1; len <= 26; ++len)
+	for (variant = 0; variant < 6; ++variant) {
+		uint8_t area[32];
+		ref_hdr f;
+		unsigned i;
+		if (!vf_case("level-%u header with an extended area of %u bytes starting with %02x, contents variant %u", level, len, firsts[fi], variant)) continue;
+		for (i = 0; i < sizeof area; ++i) area[i] = variant == 1 ? 0xFF : variant == 2 ? (uint8_t) (i * 37 + 1) : 0;
+		area[0] = firsts[fi];
+		if (variant >= 3) {
+			/* the OS-9 shape: 0xcc at 9 and bytes 1,2 repeated at 17,18 - complete (3), marker only (4), repeat broken (5) */
+			area[1] = 0x13; area[2] = 0x01; area[9] = 0xCC; area[17] = 0x13; area[18] = variant == 5 ? 0x02 : 0x01;
+			if (variant == 4) { area[17] = 0x55; }
+		}
+		if (variant == 0 && len >= 12) { area[1] = 0; area[2] = 0x00; area[3] = 0x5C; area[4] = 0x3D; area[5] = 0x4B; area[len - 6] = 0xA4; area[len - 5] = 0x81; area[len - 4] = 0xE8; area[len - 3] = 3; area[len - 2] = 0xE9; area[len - 1] = 3; }
+		hdr_init(&f, (int) level, "-lh0-");
+		f.os = level ? firsts[fi] : 0;
+		f.name = (const uint8_t *) "AREA.BIN"; f.name_len = 8;
+		f.area = area; f.area_len = len;
+		f.size = f.packed = 5; f.crc = ref_crc16(0, DATA5, 5);
+		check_record(&f, DATA5, 5, 2 | 4, "c05");
+		vf_nontrivial(vf_mix(fi * 32 + len, variant * 2 + level) + 3);
+	}
+}
+
 static void space_sweeps(void)
 {
 	static const uint32_t sizes[] = { 0, 1, 5, 0xFFFF, 0x10000, 0x7FFFFFFF, 0x80000000u, 0xFFFFFFFFu };
@@ -808,7 +840,7 @@ int main(int argc, char **argv)
 	else if (!strcmp(VF.space, "integrity")) space_integrity(12);
 	else if (!strcmp(VF.space, "perturbed-ok")) space_integrity(5);
 	else if (!strcmp(VF.space, "chains")) space_chains();
-	else if (!strcmp(VF.space, "sweeps")) space_sweeps();
+	else if (!strcmp(VF.space, "sweeps")) { space_sweeps(); sweep_areas(); }
 	else { fprintf(stderr, "unknown space %s\n", VF.space); return 2; }
 	vf_done();
 	return 0;
